@@ -157,6 +157,8 @@ func checkC06(c *fw.Ctx) {
 	// classify: which row of the table a key belongs to (by the call that produces it), and
 	// whether its operands are the ones the row prescribes
 	classify2 := func(k string) (string, bool) {
+		// a parameter captured by a closure lives in a cell: `*&param:e` is `param:e`
+		k = strings.ReplaceAll(k, "*&param:", "param:")
 		switch {
 		case strings.Contains(k, "UserID).Domain(") && strings.Contains(k, "param:userIDForSender)("):
 			return "sender's server", strings.Contains(k, ".SenderID(param:e)")
